@@ -17,6 +17,7 @@ import (
 	"strings"
 
 	"github.com/quay/claircore"
+	pcpe "github.com/quay/claircore/pkg/cpe"
 	"github.com/quay/claircore/rhel"
 	"github.com/quay/claircore/toolkit/types/cpe"
 	"github.com/quay/claircore/verifharness/internal/hx"
@@ -125,6 +126,14 @@ func implUnbind(which, s string) (out string, w cpe.WFN, ok bool) {
 			w, err = cpe.UnbindFS(s)
 		case "unbinduri":
 			w, err = cpe.UnbindURI(s)
+		case "punbind": // through the deprecated re-export package
+			w, err = pcpe.Unbind(s)
+		case "unmarshal":
+			err = w.UnmarshalText([]byte(s))
+		case "scan":
+			err = w.Scan([]byte(s))
+		case "scanstr":
+			err = w.Scan(s)
 		default:
 			w, err = cpe.Unbind(s)
 		}
@@ -190,7 +199,7 @@ func (h *harness) exec(line string) (string, error) {
 		return string(b), err
 	}
 	switch f[0] {
-	case "validate", "wild", "split", "unbindval", "bindval", "unbindfs", "unbinduri", "unbind":
+	case "validate", "wild", "split", "unbindval", "bindval", "unbindfs", "unbinduri", "unbind", "punbind", "unmarshal", "scan", "scanstr":
 		s, err := str(1)
 		if err != nil {
 			return "", err
@@ -939,7 +948,7 @@ func Run(cfg hx.Config) error {
 			s = g.mutate(g.uri())
 			r.Count("strings:uri-mutated")
 		}
-		_, w, ok := h.opUnbind("unbind", s)
+		out0, w, ok := h.opUnbind("unbind", s)
 		h.checkAcceptFS(s, w, ok)
 		if strings.HasPrefix(s, "cpe:/") {
 			h.opUnbind("unbinduri", s)
@@ -947,6 +956,14 @@ func Run(cfg hx.Config) error {
 			h.opUnbind("unbindfs", s)
 			h.opUnbind("unbinduri", s)
 			h.opSplit(s)
+		}
+		if i%5 == 0 {
+			// the other entry points are the same function
+			for _, which := range []string{"punbind", "unmarshal", "scan", "scanstr"} {
+				if o2, _, _ := h.opUnbind(which, s); s != "" && o2 != out0 {
+					r.Fail("", fmt.Sprintf("%s and Unbind disagree on %q: %s vs %s", which, s, o2, out0))
+				}
+			}
 		}
 		if ok && w.Valid() == nil {
 			// what was accepted binds and unbinds to itself
